@@ -165,6 +165,20 @@ pub fn run(out: &mut Out, rng: &mut Rng, thorough: bool) {
 			}
 		}
 	}
+	// Past 2^20 elements (a bound a "cautious" size hint might be clamped to):
+	// only the pairs where a million elements cost milliseconds.
+	for n in [(1usize << 20) - 1, 1 << 20, (1 << 20) + 1] {
+		let arr = Val::Seq((0..n).map(|i| Val::Int((i % 7) as i128)).collect());
+		let nested = Val::Map(vec![(Val::Str("a".into()), arr.clone()), (Val::Str("z".into()), Val::Int(1))]);
+		for v in [arr, nested] {
+			for (a, b) in [(Fmt::Msgpack, Fmt::Msgpack), (Fmt::Json, Fmt::Msgpack), (Fmt::Msgpack, Fmt::Json)] {
+				if v.representable(a) && v.representable(b) {
+					out.count("sizes.beyond_2_pow_20");
+					check_pair(out, rng, &v, a, b, &Spelling::plain());
+				}
+			}
+		}
+	}
 	// Non-finite floats for the targets that have them.
 	for x in [f64::INFINITY, f64::NEG_INFINITY, f64::NAN] {
 		for &a in &[Fmt::Yaml, Fmt::Toml, Fmt::Msgpack] {
